@@ -1,3 +1,5 @@
+//go:build c04
+
 package main
 
 import (
